@@ -587,6 +587,25 @@ def gen_c08(rng, sid0, thorough=False):
                 scs.append(scenario(sid, framing, [1, 2], steps, auth={"policy": policy, "seed": 0, "role": role},
                                     seed=rng.randrange(100), tag=f"c08-grid-{policy}"))
                 sid += 1
+    # the same request repeated: to the same unit, to other units, after other requests -- the decision is
+    # taken per request with the unit id of that request, an earlier allow never carries over
+    for k in range(40 if thorough else 12):
+        framing = rng.choice(["tcp", "rtu"])
+        units = [1, 2, 3]
+        steps = []
+        tx = 1
+        for _ in range(6):
+            p = rng.choice(kinds)()
+            for u in rng.sample([1, 2, 3, 9], 4) + [rng.choice([1, 2, 3])]:
+                steps.append(rx(frame(framing, tx, u, p)))
+                tx += 1
+                if rng.random() < 0.3:
+                    steps.append(rx(frame(framing, tx, u, rng.choice(kinds)())))
+                    tx += 1
+        scs.append(scenario(sid, framing, units, steps,
+                            auth={"policy": "hash", "seed": rng.randrange(1000), "role": "operator"},
+                            seed=rng.randrange(100), tag="c08-repeat-same-request"))
+        sid += 1
     # random per-request policies: the decision varies with kind, unit, range -> an earlier allow
     # must not carry over; invalid requests in between are never shown to the handler
     lat = full_lattice(rng)
